@@ -7,7 +7,7 @@ NOTES = ('Technique family: static analysis only. Every check re-extracts the ty
          'again on the tls_rustls, tls_openssl and dns_lookup build configurations (rule ids <id>@<cfg>), plus the '
          'compile-fail witness of C18. Facts a property relies on from another property are imported rule-wise '
          '(DESIGN.md 9.5). bin/mutants is the self-test (hand-written mutants, reverse patches of every fix: commit, and '
-         '120 independently seeded changes with must-report / must-stay-silent expectations per check, and 72 independently written '
+         '126 independently seeded changes with must-report / must-stay-silent expectations per check, and 80 independently written '
          'behaviour-preserving refactorings on which every check must stay silent).')
 
 TRUST = ('Trusted base: rustc nightly THIR/MIR for this source (same cfgs as the stable build), the library '
